@@ -3,7 +3,7 @@
    equals.  Hence the values a plain-int carrier accepts are exactly the listed numbers that are equal to it - whatever else the list holds. *)
 From GJS Require Import Base Bounds BoundsP NumericP IntSize Regex Schema GoType Gen Exec ExecP.
 From Coq Require Import Lqa.
-Open Scope Q_scope.
+Local Open Scope Q_scope.
 
 Definition json_num_eq (z : Z) (j : json) : bool :=
   match j with JNum n => Qeq_bool (inject_Z z) (nq n) | _ => false end.
@@ -64,7 +64,7 @@ Proof. cbn zeta. eexists. split; [reflexivity|]. vm_compute. repeat split; refle
 
 (* ---- end to end: the type generated for an integer enum accepts a document iff the document is valid under the schema ---- *)
 From GJS Require Import Valid LevelP.
-Open Scope Q_scope.
+Local Open Scope Q_scope.
 
 Definition is_num (j : json) : Prop := match j with JNum _ => True | _ => False end.
 (* {"type": "integer", "enum": [numbers...]} with no other keyword *)
@@ -130,6 +130,46 @@ Proof.
     destruct (existsb (json_num_eq z) l); reflexivity.
   - cbn [Exec.dec nlit_int nq]. rewrite Qis_int_inject, Qfloor_inject, Hr. reflexivity.
 Qed.
+Lemma dec_int_enum fd sc es x : dec (S (S fd)) (TEnum sc (TInt KInt) false es) x =
+  obind (dec (S fd) (TInt KInt) x) (fun v => if existsb (enum_eq (TInt KInt) v) es then Ok v else Err).
+Proof. reflexivity. Qed.
+
+Lemma int_enum_field fd fv c self fname k p l tbl kv sc :
+  int_enum_leaf p -> c_enum (s_con p) = Some l -> all_numbers_to_int l = Some tbl -> fname <> [] ->
+  match lookup k kv with
+  | Some x => int_value x ->
+      field_ok (dec (S (S (S fd)))) zero (default_val env dv_fuel) kv (pair_of (make_field defs c self fname k p (TEnum sc (TInt KInt) false tbl) (c_bounds (s_con p)))) = valid (S fv) p x
+  | None => mem k (c_required c) = false ->
+      field_ok (dec (S (S (S fd)))) zero (default_val env dv_fuel) kv (pair_of (make_field defs c self fname k p (TEnum sc (TInt KInt) false tbl) (c_bounds (s_con p)))) = true
+  end.
+Proof.
+  intros Hleaf He Ht Hn. destruct (lookup k kv) as [x|] eqn:Hl.
+  - intros [Hnull Hint]. rewrite (valid_int_enum_leaf fv p x l Hleaf He).
+    destruct Hleaf as (pc & l0 & -> & Hty & Hr & He0 & _ & _ & Hd & _). unfold make_field, pair_of. cbn [s_con]. rewrite Hd.
+    assert (Hcore : forall g z, in_range KInt z = true ->
+              obind (dec (S g) (TInt KInt) (JNum (mkNum (inject_Z z) true))) (fun v => if existsb (enum_eq (TInt KInt) v) tbl then Ok v else Err) =
+              if existsb (json_eqb (JNum (mkNum (inject_Z z) true))) l then Ok (GI z) else Err).
+    { intros g z Hr0. cbn [Exec.dec nlit_int nq]. rewrite Qis_int_inject, Qfloor_inject, Hr0. cbn [andb obind].
+      rewrite (int_enum_exact l tbl z Ht Hr0), (existsb_json_nums z (mkNum (inject_Z z) true) l (QArith_base.Qeq_refl _)). reflexivity. }
+    destruct (mem k (c_required c)).
+    + unfold field_ok. cbn [fst snd f_json f_ty f_name field_validators]. rewrite Hl, dec_int_enum.
+      destruct x; try (contradiction Hnull; reflexivity); try (cbn [Exec.dec obind]; reflexivity).
+      destruct (Hint n eq_refl) as [z [-> Hr0]]. rewrite (Hcore _ z Hr0). cbn [nq]. rewrite Qis_int_inject. cbn [andb].
+      destruct (existsb _ l); reflexivity.
+    + cbn [nillable_ty]. unfold field_ok. cbn [fst snd f_json f_ty f_name field_validators]. rewrite Hl.
+      assert (Hp : dec (S (S (S fd))) (TPtr (TEnum sc (TInt KInt) false tbl)) x =
+                   match x with JNull => Ok GNil | _ => obind (dec (S (S fd)) (TEnum sc (TInt KInt) false tbl) x) (fun v => Ok (GP v)) end) by reflexivity.
+      rewrite Hp, dec_int_enum.
+      destruct x; try (contradiction Hnull; reflexivity); try (cbn [Exec.dec obind]; reflexivity).
+      destruct (Hint n eq_refl) as [z [-> Hr0]]. rewrite (Hcore _ z Hr0). cbn [nq]. rewrite Qis_int_inject. cbn [andb].
+      destruct (existsb _ l); reflexivity.
+  - intros Hm. destruct Hleaf as (pc & l0 & -> & Hty & Hr & He0 & _ & _ & Hd & _). unfold make_field, pair_of. cbn [s_con]. rewrite Hd, Hm. cbn [nillable_ty].
+    unfold field_ok. cbn [fst snd f_json f_ty f_name field_validators]. rewrite Hl. reflexivity.
+Qed.
+
+Lemma int_enum_default_none p : int_enum_leaf p -> c_default (s_con p) = None.
+Proof. intros (c & l & -> & _ & _ & _ & _ & _ & Hd & _). exact Hd. Qed.
+
 End IntEnum.
 
 (* non-vacuity of [int_enum_generated_exact]: {"type": "integer", "enum": [1, 2.5, 3]} is such a leaf, the generator declares a type for it,
